@@ -614,8 +614,8 @@ class Explorer:
 
     # ---- harness API (mirrored by Concrete below)
     def int(self, name, lo=None, hi=None):
-        if name in self.inputs:
-            raise EngineError(f'duplicate input {name}')
+        if name in self.inputs:  # same named input asked again (e.g. by a copy of a lazy object): same variable
+            return SymInt(self.inputs[name])
         v = z3.Int(name)
         self.inputs[name] = v
         if lo is not None:
